@@ -94,6 +94,11 @@ CLAIMED["C06"] = dict(
    note="Not decided: symmetry in general, DeepEqual on containers, NaN, what strconv accepts. Trusted: go/ssa; reflect.Kind numbering (Float32=13, Float64=14, String=24) is read as constants of the loaded reflect package's values in the SSA.",
    technique="path-sensitive reachability on the SSA control-flow graph under fixed outcomes of named boolean tests; who-calls and sibling-agreement rules over resolved callees; transitive callee summaries (parse-routine sets)",
    design="4 C06")
+CLAIMED["C10"] = dict(
+   text="Decided: structural necessary conditions, not agreement with a Go model for all index values (with the boundary recover of C01 a missing bounds guard still yields an error, so per-site bounds guards are not armed). R1 typed stores convert first: at each of the ~34 places where package vm hands a value to reflect for storing (Value.Set, SetMapIndex key and value, reflect.Append/AppendSlice, select send) the stored value's symbolic type term is assignable to the term the sink requires (TypeOf(v), Elem/Key of the container's type), through a checked conversion whose error is tested first; conversion helpers get verified result-type summaries (fixpoint, recursion included). R2 every map read uses a key that is a string, one of the map's own keys, or passed the hashability predicate (whose definition is checked). R3 in the assignment/delete handlers no error is raised after a mutating store. R4 reads and writes address the element the node's own operands name: container = Item operand, index = int(Index), bounds = Begin/End/Cap with their defaults, map key = Index, stored value = the assigned value, string rebuild = Item[0:i] + value + Item[i+1:len]; every converted index operand determines the result on every successful path. R5 the map read helper returns the nil value on every not-found edge and the element only after the IsValid test; an unknown struct field is an error in both member handlers. R1 found one genuine defect (member assignment m.name = v on a map did not convert the name to the key type; repaired in /repo commit 07eba08).",
+   note="Not decided: that each in-range operation returns exactly the addressed element for every index value, storage sharing of Slice3, automatic append (delegated to reflect). One dead sink (Set after Slice3, never settable) is a reasoned exception. Trusted: go/ssa, reflect's documented typing of MakeMap/MakeSlice/Zero/New/Convert/Index/Elem.",
+   technique="symbolic type-term algebra over SSA values with reaching definitions for the interpreter's value cell, verified callee summaries, dominance-based guard facts (type and kind equalities); operand-provenance analysis (node operand -> reflect addressing call) with single-caller helper resolution; CFG reachability for failure-after-mutation",
+   design="4 C10")
 NOT_YET = "checker for this property is not built yet in this revision (see DESIGN.md section 4 for the planned static rules)"
 ALL = ["C%02d" % i for i in range(1, 21)]
 
